@@ -269,6 +269,42 @@ func checkC04InPlace(c *MarshalToCase, wire []byte, ci *CaseInfo) error {
 			}
 		}
 	}
+	// fourth kind of edit: the forwarder re-keys the last header extension (the receiving side numbers its extensions
+	// differently): same value slice - still pointing into the image - under a new id, written back in place
+	{
+		buf3 := make([]byte, size+c.SpareCap)
+		copy(buf3, wire)
+		var s rtp.Packet
+		if err := s.Unmarshal(buf3[:size]); err == nil && s.Extension && !isLegacyProfile(s.ExtensionProfile) {
+			if ids := s.GetExtensionIDs(); len(ids) >= 1 {
+				last := ids[len(ids)-1]
+				newID, free := uint8(0), false
+				for cand := uint8(1); cand <= 14; cand++ {
+					if s.GetExtension(cand) == nil && cand != last {
+						newID, free = cand, true
+
+						break
+					}
+				}
+				dup := false
+				for _, id := range ids[:len(ids)-1] {
+					dup = dup || id == last
+				}
+				if v := s.GetExtension(last); free && !dup && len(v) > 0 {
+					if s.DelExtension(last) == nil && s.SetExtension(newID, v) == nil {
+						want4, err := s.Marshal()
+						if err == nil && len(want4) == size {
+							n, err := s.MarshalTo(buf3[:size])
+							if err != nil || n != size || !bytes.Equal(buf3[:size], want4) {
+								return failf("in place: Unmarshal(buf), move the last extension's value from id %d to id %d (same slice), MarshalTo(buf) gives n=%d err=%v\n  %s\nMarshal() of the same packet gave\n  %s", last, newID, n, err, hb(buf3[:size]), hb(want4))
+							}
+							ci.class("in-place-extension-rekeyed")
+						}
+					}
+				}
+			}
+		}
+	}
 	// second stage: the forwarder pads the packet in place (probing); the padding trailer lands on
 	// dirty bytes behind the image while header and payload already sit where they belong
 	if k := 1 + int(c.Tweak%7); !q.Padding && c.SpareCap >= k {
@@ -332,7 +368,7 @@ func genMarshalToCase(t *rapid.T) *MarshalToCase {
 	return c
 }
 
-const ruleC04 = "C01's well-formed packets (one in ten with the Extension flag cleared while the entries stay) x destination lengths {0,1,11,12,hdr-1,hdr,hdr+1,size-1,size,size+1,size+7} or uniform in [0,size+16] x prior contents {zero,0xFF,0xEE,random} x spare capacity behind the destination (0 or 1-2000 bytes: a re-sliced pooled buffer); oracle: short destination -> io.ErrShortBuffer with n=0, otherwise n=MarshalSize, bytes identical to Marshal(), bytes beyond n untouched; same for Header.MarshalTo; one case in three also runs the forwarder pattern Unmarshal(buf) / change sequence number, timestamp, SSRC, marker, PT / MarshalTo(buf) over the packet's own wire image (only when that image is a Marshal fixed point, so the layout is unchanged; first with a destination a few bytes short: short-buffer error): result = Marshal() of the changed packet, packet intact; then, when the image has no RTP padding and there is room behind it, 1-7 padding octets are added and the packet is written in place once more; and with two or more RFC 8285 elements one of them is deleted and the shorter packet written over the image. Non-trivial = dirty destination with extension padding or >=2 RTP padding octets, or destination length in {size-1,size}; distinct = FNV-64 of the JSON case"
+const ruleC04 = "C01's well-formed packets (one in ten with the Extension flag cleared while the entries stay) x destination lengths {0,1,11,12,hdr-1,hdr,hdr+1,size-1,size,size+1,size+7} or uniform in [0,size+16] x prior contents {zero,0xFF,0xEE,random} x spare capacity behind the destination (0 or 1-2000 bytes: a re-sliced pooled buffer); oracle: short destination -> io.ErrShortBuffer with n=0, otherwise n=MarshalSize, bytes identical to Marshal(), bytes beyond n untouched; same for Header.MarshalTo; one case in three also runs the forwarder pattern Unmarshal(buf) / change sequence number, timestamp, SSRC, marker, PT / MarshalTo(buf) over the packet's own wire image (only when that image is a Marshal fixed point, so the layout is unchanged; first with a destination a few bytes short: short-buffer error): result = Marshal() of the changed packet, packet intact; then, when the image has no RTP padding and there is room behind it, 1-7 padding octets are added and the packet is written in place once more; and with two or more RFC 8285 elements one of them is deleted and the shorter packet written over the image; the last element is re-keyed (same value slice, new id) and written back. Non-trivial = dirty destination with extension padding or >=2 RTP padding octets, or destination length in {size-1,size}; distinct = FNV-64 of the JSON case"
 
 func TestC04(t *testing.T) {
 	r := begin(t, "C04", "exploration", ruleC04)
